@@ -11,6 +11,10 @@
 (*   {e:"Snapshot", stack, globals, frames, upvals, guards,                *)
 (*                  objects: <<[id, edges]>>}                              *)
 (*   {e:"Free", id}      {e:"GcEnd"}       {e:"Reset"} between runs        *)
+(*   {e:"Quiesce"}  the run is over and the host holds no guard: in the    *)
+(*                  collection that follows nothing may count as guarded   *)
+(*                  (an object that keeps its guard mark after its guard   *)
+(*                  is gone is never reclaimed again)                      *)
 (* The specification's Collect frees exactly the objects that are not      *)
 (* reachable from the union of the root categories:                        *)
 (*   - a Free of a reachable object is rejected (nothing the program can   *)
@@ -23,8 +27,8 @@ EXTENDS Naturals, Sequences, FiniteSets, Json, IOUtils, TLC
 Rec == ndJsonDeserialize(IOEnv.TRACE)
 N == Len(Rec)
 
-VARIABLES l, live, reach, phase
-vars == <<l, live, reach, phase>>
+VARIABLES l, live, reach, phase, quiet
+vars == <<l, live, reach, phase, quiet>>
 
 SeqSet(s) == {s[j] : j \in 1..Len(s)}
 Holds(r) == SeqSet(r.stack) \cup SeqSet(r.globals) \cup SeqSet(r.frames) \cup SeqSet(r.upvals) \cup SeqSet(r.guards)
@@ -39,25 +43,28 @@ NextReset(j) == IF \E q \in (j + 1)..N : IsReset(q)
                 ELSE N + 1
 Reject(why) == /\ PrintT(<<"MISMATCH", ToJson([line |-> l, why |-> why, event |-> [e |-> Rec[l].e, id |-> IF Rec[l].e = "Free" THEN Rec[l].id ELSE 0],
                                               unreachable_left |-> IF Rec[l].e = "GcEnd" THEN live \ reach ELSE {}])>>)
-               /\ l' = NextReset(l) /\ live' = {} /\ reach' = {} /\ phase' = "idle"
+               /\ l' = NextReset(l) /\ live' = {} /\ reach' = {} /\ phase' = "idle" /\ quiet' = FALSE
 
-Init == l = 1 /\ live = {} /\ reach = {} /\ phase = "idle"
+Init == l = 1 /\ live = {} /\ reach = {} /\ phase = "idle" /\ quiet = FALSE
 Next ==
   /\ l <= N
   /\ LET r == Rec[l] IN
-     CASE r.e = "Reset" -> l' = l + 1 /\ live' = {} /\ reach' = {} /\ phase' = "idle"
+     CASE r.e = "Reset" -> l' = l + 1 /\ live' = {} /\ reach' = {} /\ phase' = "idle" /\ quiet' = FALSE
+       [] r.e = "Quiesce" -> l' = l + 1 /\ quiet' = TRUE /\ UNCHANGED <<live, reach, phase>>
+       [] r.e = "Snapshot" /\ quiet /\ r.guards # <<>> ->
+            Reject("an object still counts as guarded although no guard exists any more")
        [] r.e = "Snapshot" ->
-            /\ l' = l + 1 /\ phase' = "collecting"
+            /\ l' = l + 1 /\ phase' = "collecting" /\ UNCHANGED quiet
             /\ live' = {r.objects[j].id : j \in 1..Len(r.objects)}
             /\ reach' = ReachFrom(r, Holds(r), {})
        [] r.e = "Free" ->
             IF phase # "collecting" \/ r.id \notin live THEN Reject("free outside a collection / of an unknown object")
             ELSE IF r.id \in reach THEN Reject("an object the program can still reach was freed")
-            ELSE l' = l + 1 /\ live' = live \ {r.id} /\ UNCHANGED <<reach, phase>>
+            ELSE l' = l + 1 /\ live' = live \ {r.id} /\ UNCHANGED <<reach, phase, quiet>>
        [] r.e = "GcEnd" ->
             IF phase = "collecting" /\ ~(live \subseteq reach) THEN Reject("unreachable objects survived the collection")
-            ELSE l' = l + 1 /\ phase' = "idle" /\ UNCHANGED <<live, reach>>
-       [] OTHER -> l' = l + 1 /\ UNCHANGED <<live, reach, phase>>
+            ELSE l' = l + 1 /\ phase' = "idle" /\ quiet' = FALSE /\ UNCHANGED <<live, reach>>
+       [] OTHER -> l' = l + 1 /\ UNCHANGED <<live, reach, phase, quiet>>
 Spec == Init /\ [][Next]_vars
 AllDone == (l = N + 1) => PrintT(<<"TRACE-DONE", N>>)
 \* while a collection is in progress the live set only shrinks and never loses a reachable object
